@@ -186,8 +186,10 @@ def enumerate_configs(tier: str, impls=("casadi", "numpy"), flags_mode="none"):
             if c.delta and c.phi and c.link_cls == "Link":
                 extra.append(replace(c, init="user"))
                 extra.append(replace(c, engine_arg="current"))
-            if c.delta and c.phi and not c.n1:
-                extra.append(replace(c, nbr_vsl=True))
+            # (neighbour links of class LinkWithVsl are not enumerated: they are analysed on a
+            # concrete segment count, which the position classes of the neighbour tables do not
+            # use; what a link with signs does as somebody's neighbour is Link's inherited code -
+            # C18 `vsl-class-diff`)
         cfgs += extra
     return cfgs
 
